@@ -1259,6 +1259,194 @@ def kak_layered_validate(ctx, T):
     one(m, "pinned:exp(i(.3XX+.5YY+.7ZZ))·(H⊗I)", [h], makes[0][1], makes[0][0])
 
 
+# ---- always-run, exhaustive: every 3-gate window of the peephole passes on 3 wires -----------------------------------------------------
+def window_exhaustive_validate(ctx):
+    """[CNOT(a,b), G(x), CX/CZ(c,t)] for ALL ordered pairs (a,b), (c,t) on 3 wires, all positions x of the middle gate and every
+    middle gate kind a fusing pass looks at – the exact windows and every near miss (other control, other target, reversed,
+    middle gate on the control or on a spectator).  Not sampled and not budget-dependent."""
+    import quri_parts.circuit.transpile as T
+    import quri_parts.quantinuum.circuit.transpile as TQ
+    from oracle import dense
+    from quri_parts.circuit import QuantumCircuit, gates
+
+    rng = ctx.rng
+    pairs = [(a, b) for a in range(3) for b in range(3) if a != b]
+    mids = {"RZ": lambda q: gates.RZ(q, rng.uniform(-3, 3)), "H": lambda q: gates.H(q), "S": lambda q: gates.S(q), "RX": lambda q: gates.RX(q, rng.uniform(-3, 3)),
+            "U1": lambda q: gates.U1(q, rng.uniform(-3, 3))}
+    passes = [("CNOTRZ2RZZTranspiler", TQ.CNOTRZ2RZZTranspiler, ["RZ", "H", "U1"], ["CNOT", "CZ"]),
+              ("CNOTHCNOTFusingTranspiler", T.CNOTHCNOTFusingTranspiler, ["H", "RZ", "S"], ["CNOT", "CZ"]),
+              ("FuseRotationTranspiler", T.FuseRotationTranspiler, ["RZ", "RX"], ["CNOT"]),
+              ("QuantinuumSetTranspiler", TQ.QuantinuumSetTranspiler, ["RZ", "H"], ["CNOT"])]  # no RX/RY: outside the recorded general-branch finding
+    cache: dict = {}
+    for name, cls, kinds, seconds in passes:
+        for (a, b) in pairs:
+            if name == "QuantinuumSetTranspiler" and ctx.quick() and a != 0 and (a, b) != (2, 1):
+                continue  # the preset is the slow one: quick keeps 3 of the 6 first-CNOT placements; the pass inside it is enumerated fully above
+            for kind in kinds:
+                for x in range(3):
+                    for second in seconds:
+                        for (c2, t2) in pairs:
+                            c = QuantumCircuit(3)
+                            shape = rng.random()
+                            if shape < 0.15:
+                                c.add_gate(gates.H(rng.randrange(3)))
+                            c.add_gate(gates.CNOT(a, b))
+                            c.add_gate(mids[kind](x))
+                            c.add_gate(gates.CNOT(c2, t2) if second == "CNOT" else gates.CZ(c2, t2))
+                            if shape > 0.85:
+                                c.add_gate(gates.RZ(rng.randrange(3), rng.uniform(-3, 3)))
+                            u_in = dense.circuit_unitary(3, c.gates)
+                            ctx.evaluations += 1
+                            try:
+                                out = cls()(c)
+                            except Exception as e:  # noqa: BLE001
+                                ctx.count("validate.window-all", f"{name}:raised:" + type(e).__name__)
+                                continue
+                            try:
+                                d = dense.phase_dist(dense.circuit_unitary(3, out.gates), u_in)
+                            except KeyError:
+                                ctx.count("validate.window-all", "oracle-unknown-gate")
+                                continue
+                            fused = len(out.gates) != len(c.gates) or [g.name for g in out.gates] != [g.name for g in c.gates]
+                            ctx.count("validate.window-all", f"{name}:" + ("rewritten:" if fused else "kept:") + ("ok" if d <= 1e-6 else "MISMATCH"))
+                            if not d <= 1e-6:
+                                ctx.witness("transpile:" + name, f"{name}: window [CNOT({a},{b}), {kind}({x}), {second}({c2},{t2})] → {[g.name for g in out.gates][:10]}: "
+                                            f"output differs from input by {d:.3g} (up to phase)", describe_circ(c), {"dist": d})
+
+
+    # FuseRotationTranspiler's own window: two adjacent rotations, every kind / wire combination, and the same with a gate in between
+    for k1 in ("RX", "RY", "RZ"):
+        for k2 in ("RX", "RY", "RZ"):
+            for q1 in range(3):
+                for q2 in range(3):
+                    for between in (None, "H", "CNOT"):
+                        c = QuantumCircuit(3)
+                        c.add_gate(getattr(gates, k1)(q1, rng.uniform(-3, 3)))
+                        if between == "H":
+                            c.add_gate(gates.H(rng.choice([q1, q2])))
+                        elif between == "CNOT":
+                            c.add_gate(gates.CNOT(q1, (q1 + 1) % 3))
+                        c.add_gate(getattr(gates, k2)(q2, rng.uniform(-3, 3)))
+                        u_in = dense.circuit_unitary(3, c.gates)
+                        ctx.evaluations += 1
+                        for name, cls in (("FuseRotationTranspiler", T.FuseRotationTranspiler), ("RZSetTranspiler", T.RZSetTranspiler)):
+                            try:
+                                d = dense.phase_dist(dense.circuit_unitary(3, cls()(c).gates), u_in)
+                            except Exception as e:  # noqa: BLE001
+                                ctx.count("validate.window-all", f"{name}:pair:raised:" + type(e).__name__)
+                                continue
+                            ctx.count("validate.window-all", f"{name}:pair:" + ("ok" if d <= 1e-6 else "MISMATCH"))
+                            if not d <= 1e-6:
+                                ctx.witness("transpile:" + name, f"{name}: [{k1}({q1}), {between}, {k2}({q2})]: output differs from input by {d:.3g} (up to phase)",
+                                            describe_circ(c), {"dist": d})
+
+
+# ---- always-run: exactly degenerate KAK spectra (conjugate-paired, doubly degenerate, …) --------------------------------------------------
+def kak_degenerate_validate(ctx, T):
+    """two-qubit unitaries whose KAK spectrum is EXACTLY degenerate: controlled rotations about X / Y / Z with either control
+    (spectrum {λ, λ, λ̄, λ̄}), controlled-U, interactions with coinciding coefficients, each also dressed with local unitaries
+    and on both target orders.  The decomposer documents that it may refuse them (ValueError); what it returns must be
+    faithful.  A failure here is a fresh witness unless the input lies in a recorded trigger class (it does not: the gap is at
+    rounding level, and dressing factors with entries of equal modulus are filed separately)."""
+    import numpy as np
+
+    from oracle import dense
+    from quri_parts.circuit import QuantumCircuit, gates
+
+    rng = ctx.rng
+    X, Y, Z, I2 = dense.PX, dense.PY, dense.PZ, np.eye(2)
+    P0, P1 = np.diag([1, 0]).astype(complex), np.diag([0, 1]).astype(complex)
+    makes = [("TwoQubitUnitaryMatrixKAKTranspiler", T.TwoQubitUnitaryMatrixKAKTranspiler)] * 4 + [
+        ("RZSetTranspiler", T.RZSetTranspiler), ("RotationSetTranspiler", T.RotationSetTranspiler), ("STARSetTranspiler", T.STARSetTranspiler)]
+    angles = [math.pi / 2, -math.pi / 2, math.pi, math.pi / 4, 3 * math.pi / 4, 1.0, 2.0, 0.3, -2.5]
+    for i in range(ctx.n(600, 6000)):
+        fam = ["crotX", "crotY", "crotX", "crotY", "crotZ", "cu", "xx=yy", "xx=yy=zz", "xx=-yy"][i % 9]
+        ang = rng.choice(angles) if rng.random() < 0.5 else rng.uniform(-3.1, 3.1)
+        factors = []
+        if fam.startswith("crot") or fam == "cu":
+            rot = dense.random_unitary(rng, 2) if fam == "cu" else math.cos(ang / 2) * I2 - 1j * math.sin(ang / 2) * {"X": X, "Y": Y, "Z": Z}[fam[-1]]
+            m = np.kron(I2, P0) + np.kron(rot, P1) if rng.random() < 0.5 else np.kron(P0, I2) + np.kron(P1, rot)
+        else:
+            a = ang / 2
+            b = -a if fam == "xx=-yy" else a
+            c = a if fam == "xx=yy=zz" else rng.uniform(-1.5, 1.5)
+            m = _expi(a * np.kron(X, X) + b * np.kron(Y, Y) + c * np.kron(Z, Z))
+        if rng.random() < 0.4:  # local dressing, left and / or right
+            kinds = ["identity", "diagonal", "monomial", "generic-small", "generic-large"]
+            fs = [local_factor(rng, rng.choice(kinds))[0] for _ in range(4)]
+            side = rng.choice(["left", "right", "both"])
+            if side in ("left", "both"):
+                m = np.kron(fs[0], fs[1]) @ m
+                factors += fs[:2]
+            if side in ("right", "both"):
+                m = m @ np.kron(fs[2], fs[3])
+                factors += fs[2:]
+            fam += "+local"
+        tg = rng.choice([[0, 1], [1, 0]])
+        name, make = rng.choice(makes)
+        c = QuantumCircuit(2)
+        c.add_gate(gates.UnitaryMatrix(tg, np.asarray(m).tolist()))
+        u_in = dense.embed(2, tg, np.asarray(m, dtype=complex))
+        ctx.evaluations += 1
+        try:
+            out = make()(c)
+        except Exception as e:  # noqa: BLE001 – refusing is allowed
+            ctx.count("validate.kak-degenerate", f"{fam}:raised:" + type(e).__name__)
+            continue
+        try:
+            d = dense.phase_dist(dense.circuit_unitary(2, out.gates), u_in)
+        except KeyError:
+            ctx.count("validate.kak-degenerate", "oracle-unknown-gate")
+            continue
+        ctx.count("validate.kak-degenerate", f"{fam}:" + ("ok" if d <= 1e-5 else "MISMATCH"))
+        if not d <= 1e-5:
+            near, gap = kak_known_class(m)
+            key = KNOWN_KAK if near else KNOWN_KAK_BALANCED if balanced_factor(factors) else "transpile:" + name
+            ctx.witness(key, f"{name}: 2-qubit UnitaryMatrix with exactly degenerate KAK spectrum ({fam}, angle {ang:.4g}, gap {gap:.3g}) decomposed into an operator {d:.3g} away "
+                        f"(up to phase), no error raised", describe_circ(c), {"dist": d, "gap": gap})
+
+
+# ---- always-run, exhaustive: CliffordConversionTranspiler on every gate × every target set of up to 3 species ---------------------------
+def clifford_conversion_exhaustive(ctx, T):
+    """every single-qubit Clifford gate against every target set with at most three gate species (each row of the conversion
+    table uses at most three), standalone and as the Clifford stage of GateSetConversionTranspiler: same action up to phase"""
+    import itertools
+
+    from oracle import dense
+    from quri_parts.circuit import QuantumCircuit, gates
+
+    names = ["H", "X", "Y", "Z", "S", "Sdag", "SqrtX", "SqrtXdag", "SqrtY", "SqrtYdag"]
+    subsets = [s for r in (1, 2, 3) for s in itertools.combinations(names, r)]
+    if ctx.quick():
+        subsets = [s for s in subsets if len(s) < 3] + ctx.rng.sample([s for s in subsets if len(s) == 3], 40)
+    for ts in subsets:
+        try:
+            tr = T.CliffordConversionTranspiler(ts)  # one object for all ten gates: the per-call cache must not leak between calls
+        except Exception as e:  # noqa: BLE001
+            ctx.count("validate.clifford-conv", "ctor-raised:" + type(e).__name__)
+            continue
+        c = QuantumCircuit(2)
+        for i, k in enumerate(names):
+            c.add_gate(getattr(gates, k)(i % 2))
+        singles = []
+        for k in names:
+            s1 = QuantumCircuit(1)
+            s1.add_gate(getattr(gates, k)(0))
+            singles.append((k, s1))
+        for what, circ in [("all-ten", c)] + singles:
+            n = circ.qubit_count
+            ctx.evaluations += 1
+            try:
+                d = dense.phase_dist(dense.circuit_unitary(n, tr(circ).gates), dense.circuit_unitary(n, circ.gates))
+            except Exception as e:  # noqa: BLE001
+                ctx.count("validate.clifford-conv", "raised:" + type(e).__name__)
+                continue
+            ctx.count("validate.clifford-conv", "ok" if d <= 1e-9 else "MISMATCH")
+            if not d <= 1e-9:
+                ctx.witness("transpile:CliffordConversionTranspiler", f"CliffordConversionTranspiler({list(ts)}) on {what}: output differs from input by {d:.3g} (up to phase)",
+                            describe_circ(circ), {"dist": d})
+
+
 # ---- parametric transpilers ----------------------------------------------------------------------------------------------------
 NONPARAM = qp.ONE_Q + ["RX", "RY", "RZ", "U1", "U2", "U3", "CNOT", "CZ", "SWAP", "TOFFOLI", "Pauli", "PauliRotation"]
 
@@ -2165,6 +2353,9 @@ def validate_extra(ctx):
         ("um1", lambda: um1_validate(ctx, mod("quri_parts.circuit.transpile"))),
         ("kak-near", lambda: kak_near_validate(ctx, mod("quri_parts.circuit.transpile"))),
         ("kak-layered", lambda: kak_layered_validate(ctx, mod("quri_parts.circuit.transpile"))),
+        ("kak-degenerate", lambda: kak_degenerate_validate(ctx, mod("quri_parts.circuit.transpile"))),
+        ("window-all", lambda: window_exhaustive_validate(ctx)),
+        ("clifford-conv", lambda: clifford_conversion_exhaustive(ctx, mod("quri_parts.circuit.transpile"))),
         ("parametric", lambda: parametric_validate(ctx, mod("quri_parts.circuit.transpile"))),
         ("parametric-reject", lambda: parametric_reject_validate(ctx, mod("quri_parts.circuit.transpile"))),
         ("ionq", lambda: ionq_extra_validate(ctx, mod("quri_parts.ionq.circuit.transpile"))),
@@ -2305,7 +2496,7 @@ def run(ctx: Ctx, replay=None) -> int:
             check_gate_semantics(ctx)
             correspond(ctx, tp, presets)
     with ctx.timed("oracle_validation"):
-        budget = (18 if ctx.quick() else 200) * (1 if ok and not ctx.disagreements else 3)
+        budget = (13 if ctx.quick() else 200) * (1 if ok and not ctx.disagreements else 3)
         validate(ctx, budget)
     if os.environ.get("VERIF_C01_DEBUG"):  # development aid: every witness key with its multiplicity
         import collections
